@@ -50,60 +50,161 @@ func runC18(c *kit.Ctx) {
 // R1 quantity limits
 
 type mbQuantity struct {
-	arm   *mbArm
-	limit int64
-	obj   types.Object
-	def   *ast.AssignStmt
-	uses  []ast.Node // CFG nodes of the arm that use the quantity other than comparing it with constants
+	arm    *mbArm
+	limit  int64
+	fn     *kit.Func // function in which the quantity variable lives (the processor or a function it calls)
+	region ast.Node  // the arm's clause, or the body of fn
+	obj    types.Object
+	def    *ast.AssignStmt
+	lhs    ast.Expr   // the identifier assigned in def
+	uses   []ast.Node // CFG nodes of the region that use the quantity other than comparing it with constants
 }
 
-// quantityOf finds, in an arm, the variable read big-endian from bytes 2..3 of
-// the request data.
+// mbRegion is a piece of code that serves an arm: the arm's clause, or the
+// body of a module function called from it.
+type mbRegion struct {
+	fn   *kit.Func
+	node ast.Node
+}
+
+// regions returns the arm's clause and the bodies of the module functions
+// called from it (two levels), the exception mapper excepted.
+func (m *mbModel) regions(arm *mbArm) []mbRegion {
+	out := []mbRegion{{m.Req, arm.Clause}}
+	seen := map[*kit.Func]bool{m.Req: true, m.Mapper: true}
+	for i := 0; i < len(out) && i < 12; i++ {
+		rg := out[i]
+		ast.Inspect(rg.node, func(n ast.Node) bool {
+			call, ok := n.(*ast.CallExpr)
+			if !ok {
+				return true
+			}
+			if cf := rg.fn.CalleeFunc(call); cf != nil && cf.Decl != nil && cf.Body != nil && cf.Pkg == m.Req.Pkg && !seen[cf] {
+				seen[cf] = true
+				out = append(out, mbRegion{cf, cf.Body})
+			}
+			return true
+		})
+	}
+	return out
+}
+
+// readsWord: e is a big-endian 16-bit read of request bytes lo..hi-1 in f.
+func (m *mbModel) readsWord(f *kit.Func, e ast.Expr, lo, hi int64) bool {
+	info := f.Info()
+	call, ok := ast.Unparen(e).(*ast.CallExpr)
+	if !ok || len(call.Args) != 1 {
+		return false
+	}
+	name, order, _, isBO := kit.ByteOrderCall(info, call)
+	if !isBO || name != "Uint16" || order != "big" {
+		return false
+	}
+	se, ok := ast.Unparen(call.Args[0]).(*ast.SliceExpr)
+	if !ok || !m.isReqData(f, se.X) || se.High == nil {
+		return false
+	}
+	l := int64(0)
+	if se.Low != nil {
+		v, isC := kit.ConstInt(info, se.Low)
+		if !isC {
+			return false
+		}
+		l = v
+	}
+	h, isC := kit.ConstInt(info, se.High)
+	return isC && l == lo && h == hi
+}
+
+// wordDef finds, in the code serving an arm, the variable that receives the
+// big-endian 16-bit read of request bytes lo..hi-1: directly, or as a result
+// of a module function that only returns such reads.
+func (m *mbModel) wordDef(arm *mbArm, lo, hi int64) (fn *kit.Func, region ast.Node, obj types.Object, def *ast.AssignStmt, lhs ast.Expr) {
+	for _, rg := range m.regions(arm) {
+		info := rg.fn.Info()
+		ast.Inspect(rg.node, func(n ast.Node) bool {
+			as, ok := n.(*ast.AssignStmt)
+			if !ok || obj != nil {
+				return true
+			}
+			if len(as.Lhs) == len(as.Rhs) {
+				for i := range as.Lhs {
+					if m.readsWord(rg.fn, as.Rhs[i], lo, hi) {
+						fn, region, obj, def, lhs = rg.fn, rg.node, kit.ObjOf(info, as.Lhs[i]), as, as.Lhs[i]
+						return true
+					}
+				}
+				return true
+			}
+			if len(as.Rhs) != 1 {
+				return true
+			}
+			call, ok := ast.Unparen(as.Rhs[0]).(*ast.CallExpr)
+			if !ok {
+				return true
+			}
+			cf := rg.fn.CalleeFunc(call)
+			if cf == nil || cf.Decl == nil || len(cf.Body.List) != 1 {
+				return true
+			}
+			ret, ok := cf.Body.List[0].(*ast.ReturnStmt)
+			if !ok || len(ret.Results) != len(as.Lhs) {
+				return true
+			}
+			// the helper reads the data of the same PDU it is called on
+			if sel, ok := ast.Unparen(call.Fun).(*ast.SelectorExpr); !ok || !m.isRecvOrParamOf(rg.fn, sel.X) {
+				return true
+			}
+			for i := range as.Lhs {
+				if m.readsWord(cf, ret.Results[i], lo, hi) {
+					fn, region, obj, def, lhs = rg.fn, rg.node, kit.ObjOf(info, as.Lhs[i]), as, as.Lhs[i]
+					return true
+				}
+			}
+			return true
+		})
+		if obj != nil {
+			return
+		}
+	}
+	return
+}
+
+// isRecvOrParamOf: e is the receiver (of the PDU type) of f.
+func (m *mbModel) isRecvOrParamOf(f *kit.Func, e ast.Expr) bool {
+	o := kit.ObjOf(f.Info(), e)
+	if o == nil || f.Decl == nil || f.Decl.Recv == nil {
+		return false
+	}
+	for _, fl := range f.Decl.Recv.List {
+		for _, nm := range fl.Names {
+			if f.Info().Defs[nm] == o {
+				return true
+			}
+		}
+	}
+	return false
+}
+
+// quantityOf finds, in the code serving an arm, the variable read big-endian
+// from bytes 2..3 of the request data, and its uses.
 func (m *mbModel) quantityOf(arm *mbArm) *mbQuantity {
-	info := m.Req.Info()
 	q := &mbQuantity{arm: arm}
-	ast.Inspect(arm.Clause, func(n ast.Node) bool {
-		as, ok := n.(*ast.AssignStmt)
-		if !ok || len(as.Lhs) != 1 || len(as.Rhs) != 1 {
-			return true
-		}
-		call, ok := ast.Unparen(as.Rhs[0]).(*ast.CallExpr)
-		if !ok || len(call.Args) != 1 {
-			return true
-		}
-		name, order, _, isBO := kit.ByteOrderCall(info, call)
-		if !isBO || name != "Uint16" || order != "big" {
-			return true
-		}
-		se, ok := ast.Unparen(call.Args[0]).(*ast.SliceExpr)
-		if !ok || !m.isReqData(m.Req, se.X) || se.Low == nil || se.High == nil {
-			return true
-		}
-		lo, ok1 := kit.ConstInt(info, se.Low)
-		hi, ok2 := kit.ConstInt(info, se.High)
-		if !ok1 || !ok2 || lo != 2 || hi != 4 {
-			return true
-		}
-		if q.obj == nil {
-			q.obj = kit.ObjOf(info, as.Lhs[0])
-			q.def = as
-		}
-		return true
-	})
+	q.fn, q.region, q.obj, q.def, q.lhs = m.wordDef(arm, 2, 4)
 	if q.obj == nil {
 		return nil
 	}
-	g := m.c.P.Graph(m.Req)
+	g := m.c.P.Graph(q.fn)
 	for _, blk := range g.G.Blocks {
 		if !blk.Live {
 			continue
 		}
 		br := g.BranchOf(blk)
 		for i, n := range blk.Nodes {
-			if n.Pos() < arm.Clause.Pos() || n.End() > arm.Clause.End() || n == ast.Node(q.def) {
+			if n.Pos() < q.region.Pos() || n.End() > q.region.End() || n == ast.Node(q.def) {
 				continue
 			}
-			uses, onlyConstCmp := m.usesOf(n, q.obj)
+			uses, onlyConstCmp := m.usesOf(q.fn, n, q.obj)
 			if !uses {
 				continue
 			}
@@ -119,8 +220,8 @@ func (m *mbModel) quantityOf(arm *mbArm) *mbQuantity {
 
 // usesOf reports whether n mentions the variable and whether every mention
 // is a comparison with a constant (through integer conversions).
-func (m *mbModel) usesOf(n ast.Node, o types.Object) (uses, onlyConstCmp bool) {
-	info := m.Req.Info()
+func (m *mbModel) usesOf(f *kit.Func, n ast.Node, o types.Object) (uses, onlyConstCmp bool) {
+	info := f.Info()
 	onlyConstCmp = true
 	var visit func(x ast.Node, cmpConst bool)
 	visit = func(x ast.Node, cmpConst bool) {
@@ -177,7 +278,6 @@ func (m *mbModel) usesOf(n ast.Node, o types.Object) (uses, onlyConstCmp bool) {
 
 func c18R1(c *kit.Ctx, m *mbModel) {
 	r := c.Rule("R1", "quantity within protocol limits at every use; out of range answers exception 3", 4)
-	bnd := kit.AnalyseBounds(c.P, m.Req)
 	crit := map[int64]bool{0: true, 65535: true}
 	for _, v := range kit.ComparisonConstants(m.Req) {
 		if v >= 0 && v <= 65535 {
@@ -213,14 +313,16 @@ func c18R1(c *kit.Ctx, m *mbModel) {
 		for _, u := range q.uses {
 			useSet[u] = true
 		}
-		qt := bnd.Term(m.identOf(q))
+		bnd := kit.AnalyseBounds(c.P, q.fn)
+		c.Analysed(q.fn)
+		qt := bnd.Term(q.lhs)
 		// (a) interval at every use
 		var wide []string
 		hull := kit.Iv{Lo: 1 << 40, Hi: -1}
 		for _, u := range q.uses {
 			fs, _ := bnd.FactsBefore(u)
 			if fs == nil || qt == nil {
-				wide = append(wide, m.Req.At(u)+" (no facts)")
+				wide = append(wide, q.fn.At(u)+" (no facts)")
 				continue
 			}
 			iv := bnd.EnvAt(fs, nil).IvTerm(qt)
@@ -231,7 +333,7 @@ func c18R1(c *kit.Ctx, m *mbModel) {
 				hull.Hi = iv.Hi
 			}
 			if iv.Lo < 1 || iv.Hi > limit {
-				wide = append(wide, fmt.Sprintf("%s `%s` sees %s ∈ %s", m.Req.At(u), trunc(m.Req.Str(u), 50), q.obj.Name(), iv))
+				wide = append(wide, fmt.Sprintf("%s `%s` sees %s ∈ %s", q.fn.At(u), trunc(q.fn.Str(u), 50), q.obj.Name(), iv))
 			}
 		}
 		run := func(code, v int64) *kit.IResult {
@@ -266,7 +368,7 @@ func c18R1(c *kit.Ctx, m *mbModel) {
 				}
 				for _, s := range res.Stops {
 					if !s.Tainted {
-						o.Violation("function code %d with quantity %d (protocol range 1..%d) reaches `%s` at %s", code, v, limit, trunc(m.Req.Str(s.Node), 60), m.Req.At(s.Node))
+						o.Violation("function code %d with quantity %d (protocol range 1..%d) reaches `%s` at %s", code, v, limit, trunc(q.fn.Str(s.Node), 60), q.fn.At(s.Node))
 						decided = true
 						break
 					}
@@ -342,7 +444,6 @@ func c18R1(c *kit.Ctx, m *mbModel) {
 	}
 }
 
-func (m *mbModel) identOf(q *mbQuantity) ast.Expr { return q.def.Lhs[0] }
 
 func trunc(s string, n int) string {
 	if len(s) > n {
@@ -357,13 +458,63 @@ func trunc(s string, n int) string {
 // boundsRule turns the K6 obligations of the given functions into rule
 // obligations; unproved ones are searched for a witness.
 func boundsRule(c *kit.Ctx, r *kit.Rule, fs []*kit.Func, label func(f *kit.Func, n ast.Node) string) {
+	boundsRuleOpt(c, r, fs, label, false, nil)
+}
+
+// ctxObs is the list of obligations of one function analysed in one context.
+type ctxObs struct {
+	b     *kit.Bounds
+	chain string // "" for the root, otherwise "callee ← caller …"
+	site  ast.Node
+}
+
+// boundsRuleOpt: with deep, module functions called from a root function are
+// analysed in the context of each call site (the facts established by the
+// caller hold on entry), recursively; skip exempts callees.
+func boundsRuleOpt(c *kit.Ctx, r *kit.Rule, fs []*kit.Func, label func(f *kit.Func, n ast.Node) string, deep bool, skip func(cf *kit.Func) bool) {
+	isRoot := map[*kit.Func]bool{}
+	for _, f := range fs {
+		isRoot[f] = true
+	}
 	for _, f := range fs {
 		b := kit.AnalyseBounds(c.P, f)
 		c.Analysed(f)
+		units := []ctxObs{{b: b}}
+		if deep {
+			var walk func(cb *kit.Bounds, chain string, site ast.Node, depth int)
+			walk = func(cb *kit.Bounds, chain string, site ast.Node, depth int) {
+				for _, call := range cb.ModuleCalls() {
+					cf := cb.F.CalleeFunc(call)
+					if cf == nil || isRoot[cf] || (skip != nil && skip(cf)) {
+						continue
+					}
+					sub := cb.CalleeAt(call)
+					if sub == nil {
+						continue
+					}
+					c.Analysed(cf)
+					s0 := site
+					if s0 == nil {
+						s0 = call
+					}
+					ch := cf.Name
+					if chain != "" {
+						ch = cf.Name + " ← " + chain
+					}
+					units = append(units, ctxObs{b: sub, chain: ch, site: s0})
+					walk(sub, ch, s0, depth+1)
+				}
+			}
+			walk(b, "", nil, 0)
+		}
 		unproved := 0
-		for _, ob := range b.Obs {
-			if !ob.Proved {
-				unproved++
+		var want []ast.Node
+		for _, u := range units {
+			for _, ob := range u.b.Obs {
+				if !ob.Proved {
+					unproved++
+					want = append(want, ob.Node)
+				}
 			}
 		}
 		var wit map[ast.Node]*kit.Witness
@@ -374,52 +525,59 @@ func boundsRule(c *kit.Ctx, r *kit.Rule, fs []*kit.Func, label func(f *kit.Func,
 		// overlay variants
 		full := c.Tier == "thorough" && c.P.Cfg.Overlay == nil && c.Config == "default"
 		if unproved > 0 || full {
-			var want []ast.Node
 			budget := 0
-			if !full {
-				for _, ob := range b.Obs {
-					if !ob.Proved {
-						want = append(want, ob.Node)
-					}
-				}
-				if c.Tier == "thorough" {
-					budget = 250000
-				}
+			if full {
+				want = nil
+			} else if c.Tier == "thorough" {
+				budget = 250000
 			}
 			wit, st = kit.FindCrashes(c.P, f, budget, want)
 			c.AddValuations(st.Runs)
 		}
 		seen := map[string]int{}
-		for _, ob := range b.Obs {
-			key := ob.Kind + " " + ob.Text
-			if label != nil {
-				if l := label(f, ob.Node); l != "" {
-					key = l + ": " + key
+		for _, u := range units {
+			uf := u.b.F
+			for _, ob := range u.b.Obs {
+				key := ob.Kind + " " + ob.Text
+				if u.chain != "" {
+					key = u.chain + ": " + key
 				}
-			}
-			seen[key]++
-			if seen[key] > 1 {
-				key = fmt.Sprintf("%s #%d", key, seen[key])
-			}
-			o := r.Ob(f, ob.Node, key, strings.Join(ob.Goals, " ∧ "))
-			w := wit[ob.Node]
-			switch {
-			case ob.Proved && w != nil:
-				o.Undecided("checker inconsistency: proved in range, yet the evaluator crashes with %s (%s)", w.Inputs, w.Msg)
-			case ob.Proved:
-				o.OK("%s", ob.Describe())
-			case w != nil:
-				o.Violation("`%s` can panic: %s for the input %s; not implied by the guards: %s", ob.Text, w.Msg, w.Inputs, ob.Failed)
-			default:
-				o.Undecided("cannot show %s and found no crashing input (%d evaluations)", ob.Failed, st.Runs)
+				if label != nil {
+					at := ob.Node
+					if u.site != nil {
+						at = u.site
+					}
+					if l := label(f, at); l != "" {
+						key = l + ": " + key
+					}
+				}
+				seen[key]++
+				if seen[key] > 1 {
+					key = fmt.Sprintf("%s #%d", key, seen[key])
+				}
+				o := r.Ob(uf, ob.Node, key, strings.Join(ob.Goals, " ∧ "))
+				w := wit[ob.Node]
+				switch {
+				case ob.Proved && w != nil && u.chain == "":
+					o.Undecided("checker inconsistency: proved in range, yet the evaluator crashes with %s (%s)", w.Inputs, w.Msg)
+				case ob.Proved:
+					o.OK("%s", ob.Describe())
+				case w != nil:
+					o.Violation("`%s` can panic: %s for the input %s; not implied by the guards: %s", ob.Text, w.Msg, w.Inputs, ob.Failed)
+				default:
+					o.Undecided("cannot show %s and found no crashing input (%d evaluations)", ob.Failed, st.Runs)
+				}
 			}
 		}
 	}
 }
 
 func c18R2(c *kit.Ctx, m *mbModel) {
-	r := c.Rule("R2", "every index/slice/word access of the request processor is in range", 42)
-	boundsRule(c, r, []*kit.Func{m.Req, m.Mapper}, func(f *kit.Func, n ast.Node) string {
+	// the floor is a sanity bound only: every index/slice/word access of the
+	// processor, of the mapper and of every module function they call is an
+	// obligation, whatever their number
+	r := c.Rule("R2", "every index/slice/word access of the request processor is in range", 20)
+	boundsRuleOpt(c, r, []*kit.Func{m.Req, m.Mapper}, func(f *kit.Func, n ast.Node) string {
 		if f != m.Req {
 			return ""
 		}
@@ -427,7 +585,7 @@ func c18R2(c *kit.Ctx, m *mbModel) {
 			return a.label()
 		}
 		return ""
-	})
+	}, true, nil)
 }
 
 // ---------------------------------------------------------------------------
@@ -550,153 +708,120 @@ func c18R3(c *kit.Ctx, m *mbModel) {
 	c18Mapper(c, m, r)
 }
 
-// c18Mapper checks the structure of the exception mapper.
+// c18Mapper evaluates the exception mapper for every declared exception code
+// (and one undeclared), for an error that is no exception code, and for a
+// handful of function codes, and compares the response it returns with
+// {function code | 0x80, [code]}, false, nil.
 func c18Mapper(c *kit.Ctx, m *mbModel, r *kit.Rule) {
 	f := m.Mapper
-	info := f.Info()
-	errParam := f.Params()[0]
-	// the type test on the error parameter
-	var okVar, excVar types.Object
-	var test ast.Node
-	ast.Inspect(f.Body, func(n ast.Node) bool {
-		as, ok := n.(*ast.AssignStmt)
-		if !ok || len(as.Lhs) != 2 || len(as.Rhs) != 1 {
-			return true
-		}
-		ta, ok := ast.Unparen(as.Rhs[0]).(*ast.TypeAssertExpr)
-		if !ok || ta.Type == nil || kit.ObjOf(info, ta.X) != errParam || !types.Identical(info.TypeOf(ta.Type), m.ExcType) {
-			return true
-		}
-		excVar, okVar, test = kit.ObjOf(info, as.Lhs[0]), kit.ObjOf(info, as.Lhs[1]), as
-		return true
-	})
-	oExc := r.Ob(f, test, "exception response", "an exception code is answered with function code | 0x80 and one data byte holding the code, nil error, no change")
-	oOther := r.Ob(f, test, "other errors", "any other error is answered as exception 4 (server device failure)")
-	if okVar == nil || excVar == nil {
-		oExc.Undecided("no `x, ok := err.(%s)` test on the error parameter found", m.ExcType.Obj().Name())
-		oOther.Undecided("no type test found")
-		return
-	}
-	g := c.P.Graph(f)
-	st := &kit.Std{F: f}
-	st.Eval.Atom = func(e ast.Expr) (string, bool, bool) {
-		if kit.ObjOf(info, e) == okVar {
-			return "isexc", false, true
-		}
-		return "", false, false
-	}
-	for _, isExc := range []bool{true, false} {
-		val := "F"
-		if isExc {
-			val = "T"
-		}
-		res := g.Run(kit.NewS().Set("a:isexc", val), st.Client())
-		c.AddValuations(1)
-		o := oOther
-		if isExc {
-			o = oExc
-		}
-		if len(res.Exits) == 0 {
-			o.Undecided("no exit reached")
-			continue
-		}
-		for _, e := range res.Exits {
-			if e.Return == nil {
-				o.Undecided("exit without return")
-				continue
+	c.Analysed(f)
+	oExc := r.Ob(f, nil, "exception response", "an exception code is answered with function code | 0x80 and one data byte holding the code, nil error, no change")
+	oOther := r.Ob(f, nil, "other errors", "any other error is answered as exception 4 (server device failure)")
+	var codes []int64
+	sc := m.pkg.Scope()
+	for _, name := range sc.Names() {
+		if k, ok := sc.Lookup(name).(*types.Const); ok && types.Identical(k.Type(), m.ExcType) {
+			if v, exact := kit.ConstIntVal(k); exact {
+				codes = append(codes, v)
 			}
-			if isExc {
-				if msg := m.checkExcResponse(f, e.Return, excVar); msg != "" {
-					o.Violation("%s (%s)", msg, f.At(e.Return))
-				} else {
-					o.OK("`%s` at %s returns {fc|0x80, [code]}, nil", trunc(f.Str(e.Return), 50), f.At(e.Return))
-				}
-				continue
-			}
-			// not an exception: must map to device failure
-			code, _, ok := m.excReturn(f, e.Return)
+		}
+	}
+	codes = append(codes, 0x55)
+	sort.Slice(codes, func(i, j int) bool { return codes[i] < codes[j] })
+	fcs := []int64{1, 5, 16, 0x2B, 0x7F}
+	// check evaluates one (function code, error) pair; want is the expected data byte
+	check := func(o *kit.Ob, fc int64, errv kit.IVal, want int64, what string) bool {
+		ip := &kit.Interp{P: c.P, F: f}
+		ip.Input = func(key string, t types.Type) (kit.IVal, bool) {
 			switch {
-			case ok && code == mbExcDeviceFailure:
-				o.OK("`%s` at %s", trunc(f.Str(e.Return), 50), f.At(e.Return))
-			case ok:
-				o.Violation("an error that is not an exception code is answered with exception %d instead of 4 (server device failure) at %s", code, f.At(e.Return))
-			default:
-				o.Undecided("cannot classify `%s`", f.Str(e.Return))
+			case t != nil && types.Identical(t, m.FcType):
+				return kit.IVal{K: 'i', I: fc}, true
+			case t != nil && isErrorType(t):
+				return errv, true
 			}
+			return kit.IVal{}, false
 		}
-	}
-}
-
-// checkExcResponse verifies `return false, PDU{fc|0x80, []byte{byte(exc)}}, nil`
-// in either the composite-literal or the field-assignment form.
-func (m *mbModel) checkExcResponse(f *kit.Func, ret *ast.ReturnStmt, excVar types.Object) string {
-	info := f.Info()
-	if len(ret.Results) != 3 {
-		return "exception path does not return (changed, response, error)"
-	}
-	if v, ok := info.Types[ret.Results[0]]; !ok || v.Value == nil || v.Value.String() != "false" {
-		return "exception path reports a register change"
-	}
-	if !kit.IsNilIdent(info, ret.Results[2]) {
-		return "exception path returns a non-nil error instead of an exception response"
-	}
-	fcExpr, dataExpr := m.pduFields(f, ret.Results[1], ret)
-	if fcExpr == nil || dataExpr == nil {
-		return "cannot determine the function code / data of the exception response"
-	}
-	// fc | 0x80
-	be, ok := ast.Unparen(fcExpr).(*ast.BinaryExpr)
-	if !ok || (be.Op != token.OR && be.Op != token.ADD) {
-		return fmt.Sprintf("response function code `%s` is not <request function code> | 0x80", f.Str(fcExpr))
-	}
-	isFc := func(e ast.Expr) bool {
-		sel, ok := ast.Unparen(e).(*ast.SelectorExpr)
-		if !ok {
+		res := ip.Run()
+		c.AddValuations(1)
+		if len(res.Unsupported) > 0 || res.Overflow || len(res.Exits) == 0 {
+			o.Undecided("the mapper cannot be evaluated for %s: %v", what, res.Unsupported)
 			return false
 		}
-		s, ok := info.Selections[sel]
-		return ok && s.Obj() == m.FcField && m.isRecvOrParam(f, sel.X)
-	}
-	c1, k1 := kit.ConstInt(info, be.X)
-	c2, k2 := kit.ConstInt(info, be.Y)
-	switch {
-	case isFc(be.X) && k2 && c2 == 0x80:
-	case isFc(be.Y) && k1 && c1 == 0x80:
-	default:
-		return fmt.Sprintf("response function code `%s` is not <request function code> | 0x80", f.Str(fcExpr))
-	}
-	// []byte{byte(exc)}
-	cl, ok := ast.Unparen(dataExpr).(*ast.CompositeLit)
-	if !ok || !mbIsByteSlice(info.TypeOf(cl)) || len(cl.Elts) != 1 {
-		return fmt.Sprintf("response data `%s` is not a single byte holding the exception code", f.Str(dataExpr))
-	}
-	el := ast.Unparen(cl.Elts[0])
-	if call, ok := el.(*ast.CallExpr); ok && len(call.Args) == 1 {
-		if tv, ok := info.Types[call.Fun]; ok && tv.IsType() {
-			el = ast.Unparen(call.Args[0])
+		if len(res.Crashes) > 0 {
+			o.Violation("the mapper panics for %s: %s", what, res.Crashes[0].Msg)
+			return false
 		}
-	}
-	if kit.ObjOf(info, el) != excVar {
-		return fmt.Sprintf("response data `%s` does not carry the exception code", f.Str(dataExpr))
-	}
-	return ""
-}
-
-func (m *mbModel) isRecvOrParam(f *kit.Func, e ast.Expr) bool {
-	o := kit.ObjOf(f.Info(), e)
-	if o == nil {
-		return false
-	}
-	if f.Decl != nil && f.Decl.Recv != nil {
-		for _, fl := range f.Decl.Recv.List {
-			for _, nm := range fl.Names {
-				if f.Info().Defs[nm] == o {
-					return true
-				}
+		for _, e := range res.Exits {
+			at := "-"
+			if e.Ret != nil {
+				at = f.At(e.Ret)
+			}
+			if e.Tainted || len(e.Vals) != 3 {
+				o.Undecided("the mapper's result for %s depends on values the evaluator cannot follow (%s)", what, at)
+				return false
+			}
+			chg, resp, errRes := e.Vals[0], e.Vals[1], e.Vals[2]
+			if resp.K != 't' || chg.K != 'b' || (errRes.K != 'n' && errRes.K != 'e' && errRes.K != 'i') {
+				o.Undecided("the mapper's result for %s cannot be read (%s)", what, at)
+				return false
+			}
+			gotFc, ok1 := e.Heap[resp.Ref+"."+m.FcField.Name()]
+			data, ok2 := e.Heap[resp.Ref+"."+m.DataField.Name()]
+			if !ok1 || !ok2 || gotFc.K != 'i' || data.K != 's' || data.L < 0 {
+				o.Undecided("the response built for %s cannot be read (%s)", what, at)
+				return false
+			}
+			switch {
+			case errRes.K != 'n':
+				o.Violation("for %s the mapper returns a non-nil error instead of an exception response (%s)", what, at)
+				return false
+			case chg.I != 0:
+				o.Violation("for %s the mapper reports a register change (%s)", what, at)
+				return false
+			case gotFc.I != (fc|0x80)&0xff:
+				o.Violation("for %s and function code 0x%02X the response carries function code 0x%02X, not 0x%02X (%s)", what, fc, gotFc.I, (fc|0x80)&0xff, at)
+				return false
+			case data.L != 1:
+				o.Violation("for %s the response data has %d bytes, not 1 (%s)", what, data.L, at)
+				return false
+			}
+			el, ok := kit.SliceElem(e.Heap, data, 0)
+			if !ok || el.K != 'i' {
+				o.Undecided("the data byte of the response for %s cannot be read (%s)", what, at)
+				return false
+			}
+			if el.I != want {
+				o.Violation("for %s the response carries exception code %d, not %d (%s)", what, el.I, want, at)
+				return false
 			}
 		}
+		return true
 	}
-	return false
+	okAll := true
+	for _, k := range codes {
+		for _, fc := range fcs {
+			if !check(oExc, fc, kit.IVal{K: 'i', I: k, Dyn: m.ExcType}, k, fmt.Sprintf("exception code %d", k)) {
+				okAll = false
+				break
+			}
+		}
+		if !okAll {
+			break
+		}
+	}
+	if okAll {
+		oExc.OK("%d exception codes × %d function codes evaluated: {fc|0x80, [code]}, false, nil", len(codes), len(fcs))
+	}
+	okAll = true
+	for _, fc := range fcs {
+		if !check(oOther, fc, kit.IVal{K: 'e', Lib: true}, mbExcDeviceFailure, "an error that is not an exception code") {
+			okAll = false
+			break
+		}
+	}
+	if okAll {
+		oOther.OK("answered with {fc|0x80, [4]}, false, nil")
+	}
 }
 
 // pduFields resolves the function-code and data expressions of a PDU value
@@ -775,7 +900,6 @@ func (m *mbModel) pduFields(f *kit.Func, e ast.Expr, ret *ast.ReturnStmt) (fc, d
 
 func c18R4(c *kit.Ctx, m *mbModel) {
 	r := c.Rule("R4", "reads never write; a single write writes at most once; stores are guarded", 14)
-	info := m.Req.Info()
 	for _, arm := range m.Arms {
 		read, single := false, false
 		for _, code := range arm.Codes {
@@ -785,27 +909,38 @@ func c18R4(c *kit.Ctx, m *mbModel) {
 		if read {
 			o := r.Ob(m.Req, arm.Clause, arm.label()+": no write on read", "a read arm calls only reading methods of the register provider")
 			var bad, und, seen []string
-			ast.Inspect(arm.Clause, func(n ast.Node) bool {
-				call, ok := n.(*ast.CallExpr)
-				if !ok {
-					return true
-				}
-				names, writer, isProv := m.providerCall(m.Req, call)
-				if isProv {
-					seen = append(seen, names...)
-					if writer {
-						bad = append(bad, fmt.Sprintf("%s at %s", strings.Join(names, "|"), m.Req.At(call)))
+			regs := m.regions(arm)
+			inRegion := map[*kit.Func]bool{}
+			for _, rg := range regs {
+				inRegion[rg.fn] = true
+			}
+			for _, rg := range regs {
+				rf := rg.fn
+				ast.Inspect(rg.node, func(n ast.Node) bool {
+					call, ok := n.(*ast.CallExpr)
+					if !ok {
+						return true
+					}
+					names, writer, isProv := m.providerCall(rf, call)
+					if isProv {
+						seen = append(seen, names...)
+						if writer {
+							bad = append(bad, fmt.Sprintf("%s at %s", strings.Join(names, "|"), rf.At(call)))
+						}
+						return true
+					}
+					// the provider handed to a module function is followed into it;
+					// handed to anything else it escapes the rule
+					for _, a := range call.Args {
+						if t := rf.Info().TypeOf(a); t != nil && types.Identical(t, m.ProvNamed) {
+							if cf := rf.CalleeFunc(call); cf == nil || !inRegion[cf] {
+								und = append(und, rf.At(call))
+							}
+						}
 					}
 					return true
-				}
-				// the provider handed to anything else escapes the rule
-				for _, a := range call.Args {
-					if kit.ObjOf(info, a) == m.Provider {
-						und = append(und, m.Req.At(call))
-					}
-				}
-				return true
-			})
+				})
+			}
 			// method values bound to variables that are never called are harmless; a writer bound to a called variable is caught above
 			switch {
 			case len(bad) > 0:
@@ -962,7 +1097,24 @@ func (m *mbModel) checkSingleWrite(c *kit.Ctx, o *kit.Ob, arm *mbArm, code int64
 
 func c18R5(c *kit.Ctx, m *mbModel) {
 	r := c.Rule("R5", "loops of the request processor are counted loops over a 16-bit quantity", 8)
-	f := m.Req
+	// the processor and the module functions that serve its arms
+	fns := []*kit.Func{m.Req}
+	seenFn := map[*kit.Func]bool{m.Req: true}
+	for _, arm := range m.Arms {
+		for _, rg := range m.regions(arm) {
+			if !seenFn[rg.fn] {
+				seenFn[rg.fn] = true
+				fns = append(fns, rg.fn)
+			}
+		}
+	}
+	for _, f := range fns {
+		c18Loops(c, m, r, f)
+	}
+	c18Range(c, m, r)
+}
+
+func c18Loops(c *kit.Ctx, m *mbModel, r *kit.Rule, f *kit.Func) {
 	info := f.Info()
 	bnd := kit.AnalyseBounds(c.P, f)
 	assigned := func(body ast.Node, o types.Object) bool {
@@ -1104,7 +1256,6 @@ func c18R5(c *kit.Ctx, m *mbModel) {
 		return true
 	})
 	_ = n
-	c18Range(c, m, r)
 }
 
 func rootOf(info *types.Info, e ast.Expr) types.Object {
@@ -1126,6 +1277,9 @@ func rootOf(info *types.Info, e ast.Expr) types.Object {
 
 func (m *mbModel) loopLabel(n ast.Node) string {
 	l := "loop"
+	if f := m.fnOf(n); f != m.Req {
+		return f.Name + ": loop"
+	}
 	if a := m.armAt(n); a != nil {
 		l = a.label() + ": loop"
 	}
